@@ -32,6 +32,17 @@ impl AcWrap {
     pub fn g_has_any(e: &Env, caller: Address) -> u32 {
         bump(e)
     }
+    /// stacked guards: every attribute below the first one must survive the first one's expansion
+    #[has_role(caller, "r0")]
+    #[only_any_role(caller, ["r1", "r2"])]
+    pub fn g_stacked_a(e: &Env, caller: Address) -> u32 {
+        bump(e)
+    }
+    #[only_role(caller, "r0")]
+    #[has_any_role(caller, ["r1", "r2"])]
+    pub fn g_stacked_b(e: &Env, caller: Address) -> u32 {
+        bump(e)
+    }
     pub fn counter(e: &Env) -> u32 {
         e.storage().instance().get(&Symbol::new(e, "ctr")).unwrap_or(0)
     }
